@@ -43,7 +43,7 @@ class World:
         for j, s in enumerate(nd["srcs"]):
             if "default" in s:
                 p = f"d{sid}_{j}"
-                defaults[p] = tuple(self.cells[s["default"]]) if s.get("frozen") else self.cells[s["default"]]
+                defaults[p] = tuple(self.cells[s["default"]]) if s.get("frozen") else ((self.cells[s["default"]],) if s.get("wrapped") else self.cells[s["default"]])
             elif "bound" in s:
                 p = f"b{sid}_{j}"
                 bound[p] = self.cells[s["bound"]]
@@ -60,7 +60,9 @@ class World:
         opt = [p for p in params if p in defaults]
         sig = ", ".join(req + [f"{p}=_DEF[{p!r}]" for p in opt]) + extra
         eff = nd.get("eff")
-        body = [f"_args = [{', '.join(params)}]", "_before = [list(a) for a in _args]"]
+        # a default may be an immutable container HOLDING the mutable object (a 1-tuple around the list): the function works on the inner list
+        body = [f"_args = [(_p[0] if isinstance(_p, tuple) and len(_p) == 1 and isinstance(_p[0], list) else _p) for _p in [{', '.join(params)}]]",
+                "_before = [list(a) for a in _args]"]
         if eff:
             body.append(f"if isinstance(_args[{eff[0]}], list): _args[{eff[0]}].append({eff[1]})")
             body.append(f"_after = list(_args[{eff[0]}])")
@@ -155,6 +157,8 @@ class C18(Prop):
                         r = rng.random()
                         if r < 0.45:
                             srcs.append({"default": cell(rng.choice([[], [], [7], [1, 2]]))})
+                            if rng.random() < 0.25:
+                                srcs[-1]["wrapped"] = True
                         elif r < 0.6:
                             srcs.append({"bound": cell(rng.choice([[], [5]]))})
                         else:
@@ -405,7 +409,7 @@ class C18(Prop):
             return None     # items of a map run concurrently here: their calls interleave, the model runs them one after the other
         specs = []
         for sp in case["specs"]:
-            fns = [{"fn": {"srcs": [{k: v for k, v in s.items() if k != "frozen"} for s in nd["srcs"]], "eff": nd["eff"], "out": nd["out"]}} for nd in sp["nodes"]]
+            fns = [{"fn": {"srcs": [{k: v for k, v in s.items() if k not in ("frozen", "wrapped")} for s in nd["srcs"]], "eff": nd["eff"], "out": nd["out"]}} for nd in sp["nodes"]]
             if "wrap" not in sp:
                 specs.append({"nodes": fns, "values": sp["values"], "kwargs": sp["kwargs"]})
                 continue
